@@ -29,7 +29,7 @@ class HeapProfile(Profile):
         self.df = None
 
     def tier_runs(self, tier):
-        return {"quick": 3000, "thorough": 100000}[tier]
+        return {"quick": 6000, "thorough": 200000}[tier]
 
     def new_state(self, config, stats):
         if self.df is None:
